@@ -53,8 +53,12 @@ def iter_intermediate_paths(inner_path: Path, outer_path: Path) -> Iterator[Path
 
     In both scenarios, the inner path is always the last path to be yielded.
     """
-    inner_path = inner_path.absolute()
-    outer_path = outer_path.absolute()
+    # NOTE: Normalise as well as making absolute. `Path.absolute()` keeps any
+    # `..` components, and the common path below is found lexically, so an
+    # inner path like `../sibling/file.sql` would otherwise look as if it
+    # were inside the outer path.
+    inner_path = Path(os.path.abspath(inner_path))
+    outer_path = Path(os.path.abspath(outer_path))
 
     # If we've been passed a file and not a directory,
     # then go straight to the directory.
